@@ -9,6 +9,13 @@ T = 'src/types.rs'
 H = 'src/hermes.rs'
 
 
+# mutation canaries (thorough tier): textual mutations of the EXTRACTED copy that must each fail an obligation of the named item
+MUTANTS = [
+    ('hermes::SourceMapHermes::get_scope_for_token', 'u64::from\\(token\\.get_src_line\\(\\)\\) \\+ 1', 'u64::from(token.get_src_line())'),
+    ('hermes::SourceMapHermes::get_scope_for_token', 'mapping\\.name_index as usize', 'mapping.name_index as usize + 1'),
+]
+
+
 def build(u):
     u.use_overlay('u8_hermes.ctr')
     prelude_types(u)
